@@ -58,6 +58,12 @@ def ob_e2e(tier):
         r = api.assembly(**c)
         if r.get("reproduced"):
             bad.append(dict(r, case={k: v for k, v in c.items()}))
+    # each group holds the pixels of its own file also when the product lives on a non-local filesystem and is served from index files
+    # lying next to the images (default options)
+    r = api.cache_transparency(protocol="memory", location="adjacent", level="1.5")
+    cases.append(dict(level="1.5", protocol="memory", cache="adjacent"))
+    if r.get("reproduced"):
+        bad.append({"detail": [str(r.get("diffs") or r.get("error"))[:200]], "case": cases[-1]})
     res = {"verdict": "violated" if bad else "discharged", "queries": len(cases), "replays": len(cases)}
     if bad:
         res["cex"] = bad[:3]
